@@ -67,6 +67,9 @@ def step (st : St) (j : Json) : Except String (St × Json × List Fired) := do
         fired := fired ++ [{ name := "finalize_block_panicked", detail := mkObj [("scenario", js name), ("err", js err)] }]
       else if !err.isEmpty then
         fired := fired ++ [{ name := "finalize_block_returned_error", detail := mkObj [("scenario", js name), ("err", js err)] }]
+      else if !reached then
+        -- every block finalized, but the history did not get where its control run gets (e.g. the request was never resolved)
+        fired := fired ++ [{ name := "scenario_did_not_reach_the_outcome_of_its_control", detail := mkObj [("scenario", js name)] }]
     pure (st, out, fired)
   | _ => throw s!"unknown op {op}"
 
